@@ -50,3 +50,162 @@ package transactions
 //@   assigns map(ts.bypktType)
 //@   ensures [C29] whole_view: forall k pkts.PacketType :: (k in ts.bypktType) == (k != pktType && old(k in ts.bypktType)) &&
 //@      (k != pktType ==> ts.bypktType[k] == old(ts.bypktType[k]))
+
+// ---- C18 / C19: completion and retry budget (sequential contracts, ghost state) ----
+// Ghost vocabulary (built into govc): closed(ch) = the channel has been closed;
+// calls(f) = number of invocations of the function value f; armed(timer),
+// armedDelay(timer), timerFn(timer) = state of a time.AfterFunc timer.
+//@ spec finished(t *TransactionBase) bool = closed(t.done)
+
+//@ func NewTransactionBase
+//@   nopanic [C18]
+//@   ensures [C18] init: fresh(result) && fresh(result.done) && !closed(result.done) && result.err == nil && result.finally == finally
+
+//@ func (*TransactionBase).Done
+//@   nopanic [C18]
+//@   ensures [C18] same: result == t.done
+//@ func (*TransactionBase).Err
+//@   nopanic [C18]
+//@   ensures [C18] same: result == t.err
+
+//@ func (*TransactionBase).finish
+//@   nopanic [C18]
+//@   requires [C18] live: t.done != nil && !closed(t.done)
+//@   assigns closed(t.done), calls(t.finally)
+//@   ensures [C18] closes: closed(t.done)
+//@   ensures [C18] finally_once: calls(t.finally) == old(calls(t.finally)) + ite(t.finally == nil, 0, 1)
+
+//@ func (*TransactionBase).Success
+//@   nopanic [C18]
+//@   requires [C18] wf: t.done != nil
+//@   assigns closed(t.done), calls(t.finally)
+//@   ensures [C18] finished: closed(t.done)
+//@   ensures [C18] err_stable: t.err == old(t.err)
+//@   ensures [C18] finally_once: calls(t.finally) == old(calls(t.finally)) + ite(old(closed(t.done)) || t.finally == nil, 0, 1)
+
+//@ func (*TransactionBase).Fail
+//@   nopanic [C18]
+//@   requires [C18] wf: t.done != nil
+//@   assigns t.err, closed(t.done), calls(t.finally)
+//@   ensures [C18] finished: closed(t.done)
+//@   ensures [C18] err_stable: old(closed(t.done)) ==> t.err == old(t.err)
+//@   ensures [C18] err_set: !old(closed(t.done)) ==> t.err == e
+//@   ensures [C18] finally_once: calls(t.finally) == old(calls(t.finally)) + ite(old(closed(t.done)) || t.finally == nil, 0, 1)
+//@ inline (*TransactionBase).isDone
+
+// ---- retry transaction ----
+//@ pred retryWF(t *RetryTransaction) = t.TransactionBase != nil && t.TransactionBase.done != nil
+//@ pred retryInv(t *RetryTransaction) = retryWF(t) && t.retryCallback != nil && t.retryCount < 0xFFFFFFFFFFFFFFFF &&
+//@      (t.retryNum <= t.retryCount || finished(t.TransactionBase)) && t.retryCallback != t.TransactionBase.finally
+
+//@ func NewRetryTransaction
+//@   nopanic [C18,C19]
+//@   requires [C19] cfg: retryCallback != nil && retryCount < 0xFFFFFFFFFFFFFFFF && retryCallback != finally // distinct Go types, hence distinct function values
+//@   ensures [C19] init: fresh(result) && retryInv(result) && result.retryNum == 0 && result.timer == nil &&
+//@      !finished(result.TransactionBase) && result.retryDelay == retryDelay && result.retryCount == retryCount &&
+//@      result.retryCallback == retryCallback && result.TransactionBase.finally == finally && result.TransactionBase.err == nil
+
+//@ func (*RetryTransaction).stopTimer
+//@   nopanic [C18]
+//@   assigns armed(t.timer)
+//@   ensures [C18] disarmed: !armed(t.timer)
+
+//@ func (*RetryTransaction).restartTimer
+//@   nopanic [C18,C19]
+//@   requires [C19] inv: retryInv(t)
+//@   assigns t.timer, armed(t.timer)
+//@   ensures [C19] rearmed: fresh(t.timer) && armed(t.timer) && armedDelay(t.timer) == int64(t.retryDelay) && !armed(old(t.timer))
+
+//@ func (*RetryTransaction).Proceed
+//@   nopanic [C18,C19]
+//@   requires [C19] inv: retryInv(t)
+//@   guarded [C18] retryNumMutex: retryNum, State, Data
+//@   assigns t.State, t.Data, t.retryNum, t.timer, armed(t.timer)
+//@   ensures [C19] keeps_inv: retryInv(t)
+//@   ensures [C19] budget_reset: t.retryNum == 0 && t.State == state && t.Data == data
+//@   ensures [C19] rearmed: armed(t.timer) && armedDelay(t.timer) == int64(t.retryDelay) && !armed(old(t.timer))
+
+//@ func (*RetryTransaction).Success
+//@   nopanic [C18]
+//@   requires [C18] wf: retryWF(t)
+//@   assigns armed(t.timer), closed(t.TransactionBase.done), calls(t.TransactionBase.finally)
+//@   ensures [C18] finished: finished(t.TransactionBase) && !armed(t.timer)
+//@   ensures [C18] err_stable: t.TransactionBase.err == old(t.TransactionBase.err)
+//@   ensures [C18] finally_once: calls(t.TransactionBase.finally) == old(calls(t.TransactionBase.finally)) +
+//@      ite(old(finished(t.TransactionBase)) || t.TransactionBase.finally == nil, 0, 1)
+
+//@ func (*RetryTransaction).Fail
+//@   nopanic [C18]
+//@   requires [C18] wf: retryWF(t)
+//@   assigns armed(t.timer), t.TransactionBase.err, closed(t.TransactionBase.done), calls(t.TransactionBase.finally)
+//@   ensures [C18] finished: finished(t.TransactionBase) && !armed(t.timer)
+//@   ensures [C18] err_stable: old(finished(t.TransactionBase)) ==> t.TransactionBase.err == old(t.TransactionBase.err)
+//@   ensures [C18] err_set: !old(finished(t.TransactionBase)) ==> t.TransactionBase.err == e
+//@   ensures [C18] finally_once: calls(t.TransactionBase.finally) == old(calls(t.TransactionBase.finally)) +
+//@      ite(old(finished(t.TransactionBase)) || t.TransactionBase.finally == nil, 0, 1)
+
+// One call of timeout() = one expiry of the armed timer (A-TIMER).
+//@ func (*RetryTransaction).timeout
+//@   nopanic [C18,C19]
+//@   requires [C19] inv: retryInv(t)
+//@   guarded [C18] retryNumMutex: retryNum
+//@   assigns t.retryNum, t.timer, armed(t.timer), t.TransactionBase.err, closed(t.TransactionBase.done),
+//@      calls(t.TransactionBase.finally), calls(t.retryCallback)
+//@   ensures [C19] keeps_inv: retryInv(t)
+//@   ensures [C18] nothing_after_done: old(finished(t.TransactionBase)) ==> calls(t.retryCallback) == old(calls(t.retryCallback)) &&
+//@      t.retryNum == old(t.retryNum) && t.TransactionBase.err == old(t.TransactionBase.err) && t.timer == old(t.timer) &&
+//@      calls(t.TransactionBase.finally) == old(calls(t.TransactionBase.finally))
+//@   ensures [C19] retry_once: !old(finished(t.TransactionBase)) && old(t.retryNum) < t.retryCount ==>
+//@      calls(t.retryCallback) == old(calls(t.retryCallback)) + 1
+//@   ensures [C19] retry_same_data: !old(finished(t.TransactionBase)) && old(t.retryNum) < t.retryCount ==> lastarg(t.retryCallback) == old(t.Data)
+//@   ensures [C19] retry_counted: !old(finished(t.TransactionBase)) && old(t.retryNum) < t.retryCount ==> t.retryNum == old(t.retryNum) + 1
+//@   ensures [C19] rearm_or_fail: !old(finished(t.TransactionBase)) && old(t.retryNum) < t.retryCount ==>
+//@      (finished(t.TransactionBase) && !armed(t.timer) && t.TransactionBase.err != nil) ||
+//@      (!finished(t.TransactionBase) && armed(t.timer) && armedDelay(t.timer) == int64(t.retryDelay))
+//@   ensures [C19] budget_no_callback: !old(finished(t.TransactionBase)) && old(t.retryNum) >= t.retryCount ==>
+//@      calls(t.retryCallback) == old(calls(t.retryCallback))
+//@   ensures [C19] budget_fails: !old(finished(t.TransactionBase)) && old(t.retryNum) >= t.retryCount ==>
+//@      t.TransactionBase.err == ErrNoMoreRetries && finished(t.TransactionBase) && !armed(t.timer)
+//@   ensures [C18] stop_after_fail: finished(t.TransactionBase) && !old(finished(t.TransactionBase)) ==> !armed(t.timer)
+
+// ---- timed transaction ----
+//@ pred timedWF(t *TimedTransaction) = t != nil && t.TransactionBase != nil && t.TransactionBase.done != nil
+
+//@ func NewTimedTransaction
+//@   nopanic [C18,C19]
+//@   ensures [C19] init: fresh(result) && timedWF(result) && result.timer != nil && !finished(result.TransactionBase) && result.TransactionBase.err == nil &&
+//@      armed(result.timer) && armedDelay(result.timer) == int64(timeout) && result.TransactionBase.finally == finally
+
+// The timer callback: it may run at any moment after time.AfterFunc returns,
+// so its precondition is an obligation at that call site (callback_enabled).
+//@ func NewTimedTransaction$1
+//@   nopanic [C18,C19]
+//@   requires [C18] constructed: timedWF(t)
+//@   assigns armed(t.timer), t.TransactionBase.err, closed(t.TransactionBase.done), calls(t.TransactionBase.finally)
+//@   ensures [C19] fails_with_timeout: !old(finished(t.TransactionBase)) ==> finished(t.TransactionBase) && t.TransactionBase.err == ErrTimeout
+//@   ensures [C18] nothing_after_done: old(finished(t.TransactionBase)) ==> t.TransactionBase.err == old(t.TransactionBase.err) &&
+//@      calls(t.TransactionBase.finally) == old(calls(t.TransactionBase.finally))
+
+//@ func (*TimedTransaction).stopTimer
+//@   nopanic [C18]
+//@   assigns armed(t.timer)
+//@   ensures [C18] disarmed: !armed(t.timer)
+
+//@ func (*TimedTransaction).Success
+//@   nopanic [C18]
+//@   requires [C18] wf: timedWF(t)
+//@   assigns armed(t.timer), closed(t.TransactionBase.done), calls(t.TransactionBase.finally)
+//@   ensures [C18] finished: finished(t.TransactionBase) && !armed(t.timer)
+//@   ensures [C18] err_stable: t.TransactionBase.err == old(t.TransactionBase.err)
+//@   ensures [C18] finally_once: calls(t.TransactionBase.finally) == old(calls(t.TransactionBase.finally)) +
+//@      ite(old(finished(t.TransactionBase)) || t.TransactionBase.finally == nil, 0, 1)
+
+//@ func (*TimedTransaction).Fail
+//@   nopanic [C18]
+//@   requires [C18] wf: timedWF(t)
+//@   assigns armed(t.timer), t.TransactionBase.err, closed(t.TransactionBase.done), calls(t.TransactionBase.finally)
+//@   ensures [C18] finished: finished(t.TransactionBase) && !armed(t.timer)
+//@   ensures [C18] err_stable: old(finished(t.TransactionBase)) ==> t.TransactionBase.err == old(t.TransactionBase.err)
+//@   ensures [C18] err_set: !old(finished(t.TransactionBase)) ==> t.TransactionBase.err == e
+//@   ensures [C18] finally_once: calls(t.TransactionBase.finally) == old(calls(t.TransactionBase.finally)) +
+//@      ite(old(finished(t.TransactionBase)) || t.TransactionBase.finally == nil, 0, 1)
